@@ -296,6 +296,7 @@ func (x *FnExec) verifyFunction() {
 		x.oblige("POST", en.Text, rg, goal, fn.Pos())
 	}
 	x.kindCnt["POST"] = len(c.Ensures)
+	x.obls = append(x.obls, &Obl{Name: shortKey(c.Key) + "#COVER[ret]", Kind: "COVER", Desc: "a return is reachable under the preconditions and all assumed callee postconditions (no contradiction)", Guard: rg, Goal: x.tc.True(), NAssume: len(x.assumes), NFacts: len(x.facts), Cover: true})
 	if !c.ModAll {
 		x.frameObligations(fr, st, rst, rg, c, rv)
 	}
